@@ -3734,23 +3734,29 @@ impl RaftNode {
 
         let persistent = self.persistent.read();
 
-        let (prev_log_index, prev_log_term) = if next_idx <= 1 {
-            (0, 0)
+        let prev = if next_idx <= 1 {
+            Some((0, 0))
         } else {
             // prev entry is at log index (next_idx - 1)
             persistent
                 .log_index_to_array_index(next_idx - 1)
                 .filter(|&idx| idx < persistent.log.len())
-                .map_or((0, 0), |idx| {
-                    (persistent.log[idx].index, persistent.log[idx].term)
-                })
+                .map(|idx| (persistent.log[idx].index, persistent.log[idx].term))
         };
+        let (prev_log_index, prev_log_term) = prev.unwrap_or((0, 0));
 
-        // Entries to send start at log index next_idx
-        let entries = persistent
-            .log_index_to_array_index(next_idx)
-            .filter(|&start| start < persistent.log.len())
-            .map_or_else(Vec::new, |start| persistent.log[start..].to_vec());
+        // Entries to send start at log index next_idx. When the entry before them has
+        // been compacted away its term is unknown, and a request with prev (0, 0) passes
+        // the follower's consistency check unconditionally: entries may only travel
+        // with a prev entry the follower can verify.
+        let entries = if prev.is_some() {
+            persistent
+                .log_index_to_array_index(next_idx)
+                .filter(|&start| start < persistent.log.len())
+                .map_or_else(Vec::new, |start| persistent.log[start..].to_vec())
+        } else {
+            Vec::new()
+        };
         drop(persistent);
 
         // Extract embedding from last entry for fast-path (already sparse)
